@@ -158,11 +158,8 @@ Proof.
     rewrite andb_true_r. reflexivity.
 Qed.
 
-Lemma peek_hit mx i t r : i < lim ts mx -> peek mx ((i, t) :: r) = Some (i, t).
-Proof.
-  intros H. unfold peek, fence_ok. destruct mx as [f|]; [|reflexivity]. cbn [lim] in H.
-  destruct (i <? f) eqn:E; [reflexivity | lia].
-Qed.
+Lemma peek_hit mx i t r : fence_ok mx i = true -> peek mx ((i, t) :: r) = Some (i, t).
+Proof. intros H. unfold peek. rewrite H. reflexivity. Qed.
 
 Lemma peek_some mx s i t : peek mx s = Some (i, t) -> exists r, s = (i, t) :: r /\ fence_ok mx i = true.
 Proof.
@@ -171,7 +168,7 @@ Proof.
 Qed.
 
 Lemma accept_hit pat p mx i t r : pat_nontrivia pat = true -> 0 <= p ->
-  sstream p = (i, t) :: r -> i < lim ts mx -> kmatch (kd t) pat = true ->
+  sstream p = (i, t) :: r -> fence_ok mx i = true -> kmatch (kd t) pat = true ->
   accept ts pat (p, mx) = Ok (Some (i, t), (i + 1, mx)).
 Proof.
   intros Hp Hq Hs Hl Hm. rewrite accept_peek by assumption. rewrite Hs, peek_hit by exact Hl.
@@ -202,7 +199,7 @@ Proof.
 Qed.
 
 Lemma accept_first_hit ps p mx i t r : forallb pat_nontrivia ps = true -> 0 <= p ->
-  sstream p = (i, t) :: r -> i < lim ts mx -> existsb (kmatch (kd t)) ps = true ->
+  sstream p = (i, t) :: r -> fence_ok mx i = true -> existsb (kmatch (kd t)) ps = true ->
   accept_first ts ps (p, mx) = Ok (Some (i, t), (i + 1, mx)).
 Proof.
   intros Hps Hq Hs Hl Hm. induction ps as [|q ps IH]; cbn [accept_first existsb] in *; [discriminate|].
